@@ -22,7 +22,7 @@ type transition struct {
 	to       stateID
 }
 
-type stateID uint16
+type stateID int
 
 // Compile parses a pattern, including the error checking that was added to
 // bmake in str.c 1.98 from 2023-06-23.
